@@ -2082,8 +2082,24 @@ func detectRenames(inv, baseline map[string]string) renamePlan {
 				bySig = append(bySig, nk)
 			}
 		}
+		// method ↔ function conversion that keeps the name
+		var byName []string
+		for nk := range inv {
+			if strings.HasPrefix(nk, "type:") || strings.HasPrefix(nk, "var:") {
+				continue
+			}
+			if _, inBase := baseline[nk]; inBase {
+				continue
+			}
+			np := strings.SplitN(nk, "|", 3)
+			if len(np) == 3 && np[0] == bp[0] && np[2] == bp[2] && (np[1] == "") != (bp[1] == "") {
+				byName = append(byName, nk)
+			}
+		}
 		pick := ""
 		switch {
+		case len(byName) == 1:
+			pick = byName[0]
 		case len(byBody) == 1:
 			pick = byBody[0]
 		case len(bySig) == 1:
